@@ -34,7 +34,7 @@
 
 use self::errors::*;
 use crate::temporal::ym_duration::FeelYearsAndMonthsDuration;
-use crate::temporal::{weekday, FeelDateTime, FeelTime};
+use crate::temporal::{FeelDateTime, FeelTime};
 use crate::FeelNumber;
 use chrono::{DateTime, Datelike, FixedOffset, Local};
 use dmntk_common::DmntkError;
@@ -201,7 +201,15 @@ impl FeelDate {
   }
   ///
   pub fn weekday(&self) -> Option<u32> {
-    weekday(&FeelDateTime(self.clone(), FeelTime::utc(0, 0, 0, 0)))
+    // day number in the proleptic Gregorian calendar, counted from 1970-01-01 (a Thursday), for every year
+    let (month, day) = (self.1 as i64, self.2 as i64);
+    let year = self.0 as i64 - if month <= 2 { 1 } else { 0 };
+    let era = year.div_euclid(400);
+    let year_of_era = year - era * 400;
+    let day_of_year = (153 * (if month > 2 { month - 3 } else { month + 9 }) + 2) / 5 + day - 1;
+    let day_of_era = year_of_era * 365 + year_of_era / 4 - year_of_era / 100 + day_of_year;
+    let days = era * 146_097 + day_of_era - 719_468;
+    Some(((days + 3).rem_euclid(7) + 1) as u32)
   }
   ///
   pub fn as_tuple(&self) -> (i32, u32, u32) {
